@@ -8,6 +8,7 @@ package main
 import (
 	"bytes"
 	"compress/gzip"
+	"encoding/csv"
 	"encoding/hex"
 	"encoding/json"
 	"errors"
@@ -59,7 +60,9 @@ type c06In struct {
 	NoFail    bool   `json:"no_fail,omitempty"`   // "reader": control, the reader ends with io.EOF
 	Aligned   *c06Aligned `json:"aligned,omitempty"` // one large input of fixed-width numbered records (tree / stdin_hex are derived)
 	Nofile    int      `json:"nofile,omitempty"` // > 0: rare runs with this descriptor limit (ulimit -n, soft and hard)
-	Mode      int      `json:"mode"` // 0 filter (all lines), 1 filter -m '^.*Q.*$', 2 histo -e {src} -e {0}
+	Mode      int      `json:"mode"` // 0 filter (all lines), 1 filter -m '^.*Q.*$', 2 an aggregating command keyed by source, the line as increment
+	Agg       int      `json:"agg,omitempty"` // mode 2: 0 histo, 1 table, 2 bargraph, 3 heatmap, 4 spark, 5 reduce (counts the matches)
+	Csv       int      `json:"csv,omitempty"` // mode 2: 0 no export, 1 `--csv -`, 2 `-o <file>`
 	Q         int      `json:"q"`    // the byte Q of mode 1
 }
 // Fixed-width records "0000001.....\n": with a width that divides the 128 KiB read-ahead buffer a newline is exactly
@@ -282,9 +285,20 @@ func prepare(root string, in c06In) (c06In, *fifoWriters, map[string]int) {
 	return in, startWriters(root, in.Tree), cnt
 }
 
+// the second component of the model's mode: the byte Q (mode 1) or command + 8 * csv kind (mode 2)
+func modeArg(in c06In) int {
+	if in.Mode == 2 {
+		return in.Agg + 8*in.Csv
+	}
+	return in.Q
+}
+
+var aggNames = []string{"histo", "table", "bargraph", "heatmap", "spark", "reduce"}
+
 func useStdin(in c06In) bool { return len(in.Args) == 0 || in.Args[0] == "-" }
 
 func runRare(root string, in c06In) c06Out {
+	csvFile := ""
 	args := []string{"--nocolor"}
 	switch in.Mode {
 	case 0:
@@ -292,7 +306,27 @@ func runRare(root string, in c06In) c06Out {
 	case 1:
 		args = append(args, "filter", "-m", "^.*"+string(rune(in.Q))+".*$", "-e", "{src}:{line}:{0}")
 	default:
-		args = append(args, "histo", "--noout", "-e", "{src}", "-e", "{0}")
+		switch in.Agg {
+		case 0:
+			args = append(args, "histo", "-e", "{src}", "-e", "{0}")
+		case 1, 3, 4:
+			args = append(args, []string{"", "table", "", "heatmap", "spark"}[in.Agg], "-e", "c", "-e", "{src}", "-e", "{0}")
+		case 2:
+			args = append(args, "bargraph", "-e", "{src}", "-e", "k", "-e", "{0}")
+		default:
+			args = append(args, "reduce", "-e", "{src}", "-g", "src={0}", "-a", "n={sumi {.} 1}")
+		}
+		switch in.Csv {
+		case 0:
+			args = append(args, "--noout")
+		case 1:
+			args = append(args, "--csv", "-")
+		default:
+			csvFile = filepath.Join(workdir(), fmt.Sprintf("export%d.csv", caseNo))
+			os.Remove(csvFile)
+			defer os.Remove(csvFile)
+			args = append(args, "-o", csvFile)
+		}
 	}
 	args = append(args, "--readers", strconv.Itoa(in.Readers), "--workers", strconv.Itoa(in.Workers), "--batch", strconv.Itoa(in.Batch))
 	if in.Gunzip {
@@ -356,6 +390,25 @@ func runRare(root string, in c06In) c06Out {
 		if text != "" {
 			for _, l := range strings.Split(text, "\n") {
 				out.Lines = append(out.Lines, parseLine(l))
+			}
+		}
+		sort.Slice(out.Lines, func(i, j int) bool { return lineLess(out.Lines[i], out.Lines[j]) })
+	} else if in.Csv != 0 {
+		// the csv export: a header row, then one row "key,value" per key; observed as (key, 0, value)
+		data := so.Bytes()
+		if in.Csv == 2 {
+			data, _ = os.ReadFile(csvFile)
+		}
+		rows, err := csv.NewReader(bytes.NewReader(data)).ReadAll()
+		if err != nil {
+			out.Lines = append(out.Lines, c06Line{Src: "", No: 0, Text: hex.EncodeToString(data)}) // not csv: equals no model row
+		} else if len(rows) > 0 { // (a table without columns has an empty header line, which is no record)
+			for _, r := range rows[1:] {
+				if len(r) == 2 {
+					out.Lines = append(out.Lines, c06Line{Src: hex.EncodeToString([]byte(r[0])), No: 0, Text: hex.EncodeToString([]byte(r[1]))})
+				} else {
+					out.Lines = append(out.Lines, c06Line{Src: "", No: uint64(len(r)), Text: hex.EncodeToString([]byte(strings.Join(r, ",")))})
+				}
 			}
 		}
 		sort.Slice(out.Lines, func(i, j int) bool { return lineLess(out.Lines[i], out.Lines[j]) })
@@ -745,9 +798,15 @@ func c06Case(in c06In) Case {
 	stdinFails := in.StdinFail == "dir" || (in.StdinFail == "reader" && !in.NoFail)
 	coq := fmt.Sprintf("c %s %s %s %s %s %s %d \"%s\" %s %d %d %s %s %d",
 		CoqList(o.fs), CoqList(o.glob), CoqList(o.gz), HLS(in.Args), B(in.Recursive), B(in.Gunzip),
-		in.Batch, in.Stdin, B(stdinFails), in.Mode, in.Q, CoqList(lines), Z(int64(out.Exit)), out.Nlog)
+		in.Batch, in.Stdin, B(stdinFails), in.Mode, modeArg(in), CoqList(lines), Z(int64(out.Exit)), out.Nlog)
 
 	tags := []string{fmt.Sprintf("exit=%d", out.Exit), fmt.Sprintf("readers=%d", in.Readers), fmt.Sprintf("mode=%d", in.Mode)}
+	if in.Mode == 2 && in.Agg >= 0 && in.Agg < len(aggNames) {
+		tags = append(tags, "agg:"+aggNames[in.Agg], fmt.Sprintf("csv=%d", in.Csv))
+		if in.Csv != 0 {
+			tags = append(tags, fmt.Sprintf("csv-export,exit=%d", out.Exit))
+		}
+	}
 	nontrivial := false
 	add := func(t string, nt bool) {
 		tags = append(tags, t)
@@ -1112,8 +1171,8 @@ func genIn(r *Rng) c06In {
 	switch r.Intn(10) {
 	case 0, 1:
 		in.Mode = 1
-	case 2, 3:
-		in.Mode = 2
+	case 2, 3, 4:
+		in.Mode, in.Agg, in.Csv = 2, r.Intn(6), r.Intn(3)
 	}
 	in.Tree = genTree(r, in.Mode == 2)
 	in.Gunzip = r.Chance(2, 5)
@@ -1276,6 +1335,29 @@ func manyFilesCases() []c06In {
 	return out
 }
 
+// the six aggregating commands with and without the csv export x (failed input, unparsable increment, nothing matched, all fine)
+func csvCases() []c06In {
+	tree := []c06Ent{
+		{Path: "good.log", Data: hex.EncodeToString([]byte("5\n-2\n7\n")), Kind: "plain"},
+		{Path: "bad.log", Data: hex.EncodeToString([]byte("5\nx\n3\n")), Kind: "plain"},
+		{Path: "empty.log", Data: "", Kind: "empty"},
+	}
+	var out []c06In
+	for agg := 0; agg < 6; agg++ {
+		for csvKind := 0; csvKind < 3; csvKind++ {
+			for k, as := range [][]string{{"nope", "good.log"}, {"bad.log", "good.log"}, {"empty.log"}, {"good.log"}, {"good.log", "good.log", "bad.log", "nope"}} {
+				if csvKind == 0 && k == 4 {
+					continue
+				}
+				out = append(out, c06In{Tree: tree, Args: as, Readers: 1 + (agg+k)%3, Workers: 1 + k%2, Batch: 1000, Q: 'Q', Mode: 2, Agg: agg, Csv: csvKind})
+			}
+		}
+		out = append(out, c06In{Tree: tree, Args: nil, Stdin: hex.EncodeToString([]byte("4\nx\n")), Readers: 1, Workers: 1, Batch: 1000, Q: 'Q', Mode: 2, Agg: agg, Csv: 1})
+		out = append(out, c06In{Tree: tree, Args: nil, StdinFail: "dir", Readers: 1, Workers: 1, Batch: 1000, Q: 'Q', Mode: 2, Agg: agg, Csv: 2})
+	}
+	return out
+}
+
 func gen(r *Rng, n int, tier string) []Case {
 	buildRare()
 	var cases []Case
@@ -1294,6 +1376,9 @@ func gen(r *Rng, n int, tier string) []Case {
 	for _, in := range manyFilesCases() {
 		cases = append(cases, c06Case(in))
 	}
+	for _, in := range csvCases() {
+		cases = append(cases, c06Case(in))
+	}
 	for len(cases) < n {
 		cases = append(cases, c06Case(genIn(r.Fork())))
 	}
@@ -1304,8 +1389,8 @@ func main() {
 	Main(&Prop{
 		Name:   "C06",
 		Header: "From Coq Require Import List NArith ZArith String.\nFrom RareV Require Import Corr.C06Case.\nImport ListNotations.\nLocal Open Scope string_scope.\nLocal Open Scope N_scope.\n",
-		Rule: "the rare binary built from the tree under test, run (filter -e '{src}:{line}:{0}', filter -m '^.*Q.*$', histo -e {src} -e {0}) in real temporary trees: " +
-			"a fixed scope (20 argument lists x -z x -R on one tree with plain / gzip / truncated gzip / empty files and nested directories, stdin forms, 26 argument lists x -R over a tree of pattern-named files and directories next to the siblings their names match as patterns (x[1].log+x1.log, s*.txt+sab.txt, w?.txt+wa.txt, r[a-c].log+rb.log, a\\*b+a*b, *+zz, g[1]/+g1/, h*/+hx/, malformed k[), walked directly, from a parent, and mixed with the same names as command-line patterns; 84 named-pipe cases (7 contents: 6 bytes, 2 bytes, empty, > 4096 bytes, gzip, gzip cut inside its header, gzip cut inside its body; as argument, next to a file, as glob match, below a -R directory; x -z) with a writer goroutine per pipe; 6 cases of 130-230 small inputs read with a descriptor limit of 40 (ulimit -n; --readers 1 and 3; glob, -R, -z over plain files): every input is closed when read, so all lines are present and there is no read error; 8 large single-input cases of fixed-width numbered records (1300 x 128 bytes as plain file, plain under -z, gzip under -z, standard input, with --batch 100000 so that every line is still held when the buffer is refilled; 2200 x 128 bytes with the default batch and 3 workers; 1300 x 128 bytes through a named pipe: plain, plain under -z, gzip under -z): a newline is exactly the last byte of a full 128 KiB read-ahead buffer and every record must be printed exactly once under its own line number; standard input failing while read: directory handle at CLI level, and at library level batchers.OpenReaderToChan + helpers.DetermineErrorState over a reader that fails after 0-3 lines) then seeded random trees (depth <= 3, names incl. glob metacharacters, a named pipe in 1 directory of 9 (made a regular file when the arguments mention it more than once: a pipe cannot be read twice), pattern-named entries paired with a sibling the name matches (1 directory in 3), malformed-pattern names, " +
+		Rule: "the rare binary built from the tree under test, run (filter -e '{src}:{line}:{0}', filter -m '^.*Q.*$', and the aggregating commands histo / table / bargraph / heatmap / spark / reduce keyed by source with the line as increment, without export, with --csv - and with -o <file>: exit status and the rows of the export are compared) in real temporary trees: " +
+			"a fixed scope (20 argument lists x -z x -R on one tree with plain / gzip / truncated gzip / empty files and nested directories, stdin forms, 26 argument lists x -R over a tree of pattern-named files and directories next to the siblings their names match as patterns (x[1].log+x1.log, s*.txt+sab.txt, w?.txt+wa.txt, r[a-c].log+rb.log, a\\*b+a*b, *+zz, g[1]/+g1/, h*/+hx/, malformed k[), walked directly, from a parent, and mixed with the same names as command-line patterns; 84 named-pipe cases (7 contents: 6 bytes, 2 bytes, empty, > 4096 bytes, gzip, gzip cut inside its header, gzip cut inside its body; as argument, next to a file, as glob match, below a -R directory; x -z) with a writer goroutine per pipe; 96 cases of the six aggregating commands x {no export, --csv -, -o file} x {missing input next to a good one, unparsable increment, nothing matched, all fine, duplicates + failure} and on (failing) standard input; 6 cases of 130-230 small inputs read with a descriptor limit of 40 (ulimit -n; --readers 1 and 3; glob, -R, -z over plain files): every input is closed when read, so all lines are present and there is no read error; 8 large single-input cases of fixed-width numbered records (1300 x 128 bytes as plain file, plain under -z, gzip under -z, standard input, with --batch 100000 so that every line is still held when the buffer is refilled; 2200 x 128 bytes with the default batch and 3 workers; 1300 x 128 bytes through a named pipe: plain, plain under -z, gzip under -z): a newline is exactly the last byte of a full 128 KiB read-ahead buffer and every record must be printed exactly once under its own line number; standard input failing while read: directory handle at CLI level, and at library level batchers.OpenReaderToChan + helpers.DetermineErrorState over a reader that fails after 0-3 lines) then seeded random trees (depth <= 3, names incl. glob metacharacters, a named pipe in 1 directory of 9 (made a regular file when the arguments mention it more than once: a pipe cannot be read twice), pattern-named entries paired with a sibling the name matches (1 directory in 3), malformed-pattern names, " +
 			"files: plain, empty, gzip, truncated gzip (header/body/trailer), damaged trailer, damaged deflate body, multi-member, trailing garbage, plain > 4096 bytes) x 1-4 arguments (file, directory with or without trailing slash, glob, missing path, " +
 			"duplicate, malformed pattern, the same file spelled with ./ // dir/.. missing/.. or a trailing /. , '-' first or later, none) x -z x -R x --readers 1-4 x --workers 1-3 x --batch {1,2,3,1000}. Oracles: os.Stat, filepath.Glob, os.ReadDir order, compress/gzip called by the harness on the same tree. " +
 			"distinct = distinct (tree, arguments, flags, stdin); non-trivial = at least one of: a named pipe that is read, a directory walked by -R, a walked entry whose name read as a pattern would match something else, a glob with >= 2 matches, a pattern without match taken literally, a missing path next to other arguments, " +
